@@ -90,7 +90,7 @@ Fixpoint val_eqb (a b : val) {struct a} : bool :=
        | (k, x) :: r => existsb (fun e => val_eqb k (fst e) && val_eqb x (snd e)) e2 && go r
        end) e1
   | VStruct s1 f1, VStruct s2 f2 =>
-    str_eqb (s_tstr s1) (s_tstr s2) &&
+    str_eqb (s_id s1) (s_id s2) &&
     (fix go (f1 f2 : list (finfo * val)) {struct f1} : bool :=
        match f1, f2 with
        | [], [] => true
@@ -266,11 +266,11 @@ Section Struct.
     | VStruct si fs =>
       let '(sn', cus) :=
         match sn with
-        | [] => (s_name si, match typed_rule (s_tstr si) with
+        | [] => (s_name si, match typed_rule (s_id si) with
                             | [] => match c_unscoped c with Some r => r | None => [] end
                             | r => r
                             end)
-        | _ => (sn, typed_rule (s_tstr si))
+        | _ => (sn, typed_rule (s_id si))
         end in
       on_fields sn' cus fs b
     | tv => if gather then Ok b else Ok (put b [CField sn (type_name tv) (FKnown (s2b "is not struct"))])
